@@ -496,3 +496,168 @@ func init() {
 		Doc: "assignment context and assignability reach every nested target: parser.setCtx has an arm for each node type with target children (Tuple.Elts, List.Elts, Starred.Value — ast.c set_context) that applies setCtx to them; the nodes' own SetCtx methods do not reject anything, so a missing arm accepts `*f(), a = x`",
 		Run: runTargetDescent})
 }
+
+// ---- C06.R12: the indentation decision consults the indent stack ----
+//
+// Whether a logical line opens a block, closes blocks or continues one is decided by comparing its measured indentation
+// with the stack of open indentation levels (tokenizer.c: `if (col == tok->indstack[tok->indent])` …). In the lexer's
+// checkIndent state every way out — continue, return, goto — that is taken before the stack has been looked at must
+// be taken only because brackets are open (inside brackets indentation means nothing): a condition that is
+// openBrackets() itself, a conjunction containing it, or a disjunction all of whose alternatives contain it. Any other
+// early way out (a "same as the previous line" fast path, a cached verdict) skips a DEDENT or accepts an unexpected
+// indent for some layout of the source.
+func runIndentConsultsStack(c *Ctx, r *Rep) {
+	p := c.MustPkg("parser")
+	info := p.TypesInfo
+	fd := c.MethodDecl("parser", "yyLex", "Lex")
+	if fd == nil {
+		r.undecided("indent|anchor", token.NoPos, "(*parser.yyLex).Lex not found")
+		return
+	}
+	r.analysed("(*parser.yyLex).Lex")
+	view := c.Expand(p, fd)
+	var clause *ast.CaseClause
+	ast.Inspect(view.Body, func(nd ast.Node) bool {
+		cc, ok := nd.(*ast.CaseClause)
+		if !ok {
+			return true
+		}
+		for _, e := range cc.List {
+			if id := identOf(e); id != nil {
+				if k, ok := info.Uses[id].(*types.Const); ok && k.Name() == "checkIndent" {
+					clause = cc
+				}
+			}
+		}
+		return true
+	})
+	if clause == nil {
+		r.undecided("indent|anchor", fd.Pos(), "the checkIndent state of the lexer's state machine was not found")
+		return
+	}
+	readsStack := func(n ast.Node) bool {
+		found := false
+		ast.Inspect(n, func(m ast.Node) bool {
+			if sel, ok := m.(*ast.SelectorExpr); ok && sel.Sel.Name == "indentStack" {
+				if _, isField := info.Uses[sel.Sel].(*types.Var); isField {
+					found = true
+				}
+			}
+			return true
+		})
+		return found
+	}
+	first := -1
+	for i, st := range clause.Body {
+		if readsStack(st) {
+			first = i
+			break
+		}
+	}
+	if first < 0 {
+		r.bad("indent|checkIndent|stack consulted", clause.Pos(), "the checkIndent state never reads the indent stack: INDENT and DEDENT cannot be decided without it")
+		return
+	}
+	// single definitions of boolean locals inside the clause
+	defs := map[types.Object][]ast.Expr{}
+	for _, st := range clause.Body {
+		ast.Inspect(st, func(m ast.Node) bool {
+			if as, ok := m.(*ast.AssignStmt); ok && len(as.Lhs) == len(as.Rhs) {
+				for i, l := range as.Lhs {
+					if id := identOf(l); id != nil {
+						defs[info.ObjectOf(id)] = append(defs[info.ObjectOf(id)], as.Rhs[i])
+					}
+				}
+			}
+			return true
+		})
+	}
+	var onlyBrackets func(e ast.Expr, depth int) bool
+	onlyBrackets = func(e ast.Expr, depth int) bool {
+		if depth > 5 {
+			return false
+		}
+		e = unparen(e)
+		switch x := e.(type) {
+		case *ast.CallExpr:
+			fn := Callee(info, x)
+			return fn != nil && fn.Name() == "openBrackets"
+		case *ast.BinaryExpr:
+			switch x.Op {
+			case token.LAND:
+				return onlyBrackets(x.X, depth+1) || onlyBrackets(x.Y, depth+1)
+			case token.LOR:
+				return onlyBrackets(x.X, depth+1) && onlyBrackets(x.Y, depth+1)
+			case token.GTR, token.NEQ:
+				// x.bracket+x.parenthesis+x.curly > 0 written out
+				s := exprStr(x)
+				return strings.Contains(s, "bracket") || strings.Contains(s, "parenthesis") || strings.Contains(s, "curly")
+			}
+		case *ast.Ident:
+			ds := defs[info.ObjectOf(x)]
+			if len(ds) != 1 {
+				return false
+			}
+			return onlyBrackets(ds[0], depth+1)
+		}
+		return false
+	}
+	n := 0
+	var walk func(st ast.Stmt, guards []ast.Expr)
+	walkList := func(list []ast.Stmt, guards []ast.Expr) {
+		for _, s := range list {
+			walk(s, guards)
+		}
+	}
+	walk = func(st ast.Stmt, guards []ast.Expr) {
+		switch x := st.(type) {
+		case *ast.BranchStmt, *ast.ReturnStmt:
+			n++
+			kind := "return"
+			if b, ok := x.(*ast.BranchStmt); ok {
+				kind = b.Tok.String()
+			}
+			key := "indent|checkIndent|early " + kind
+			okExit := false
+			for _, g := range guards {
+				if onlyBrackets(g, 0) {
+					okExit = true
+				}
+			}
+			if okExit {
+				r.ok(key, st.Pos(), "taken only while brackets are open")
+			} else {
+				var gs []string
+				for _, g := range guards {
+					gs = append(gs, exprStr(g))
+				}
+				r.bad(key, st.Pos(), "the checkIndent state is left by `%s` (under %s) before the measured indentation has been compared with the indent stack, and not only because brackets are open: for some layout of the source a DEDENT is skipped or an unexpected indent accepted (the decision belongs to the comparison with indentStack) [tokenizer.c tok_get]", kind, strings.Join(gs, " && "))
+			}
+		case *ast.IfStmt:
+			walkList(x.Body.List, append(append([]ast.Expr{}, guards...), x.Cond))
+			if x.Else != nil {
+				walk(x.Else, guards) // the negation carries no bracket fact
+			}
+		case *ast.BlockStmt:
+			walkList(x.List, guards)
+		case *ast.ForStmt:
+			walkList(x.Body.List, guards)
+		case *ast.RangeStmt:
+			walkList(x.Body.List, guards)
+		case *ast.SwitchStmt:
+			for _, cl := range x.Body.List {
+				walkList(cl.(*ast.CaseClause).Body, guards)
+			}
+		case *ast.LabeledStmt:
+			walk(x.Stmt, guards)
+		}
+	}
+	walkList(clause.Body[:first], nil)
+	r.ok("indent|checkIndent|stack consulted", clause.Body[first].Pos(), "the indent stack is read; %d earlier way(s) out examined", n)
+}
+
+func init() {
+	register(&Rule{ID: "C06.R12", Prop: "C06", Floor: 2,
+		Doc: "the indentation decision consults the indent stack: in the lexer's checkIndent state every continue/return/goto taken before the first read of indentStack is taken only because brackets are open (a condition that is openBrackets(), a conjunction containing it, or a disjunction all of whose alternatives do) — any other early way out skips a DEDENT or accepts an unexpected indent for some source layout; the arithmetic of the comparison itself is not decided",
+		Run: runIndentConsultsStack})
+}
